@@ -35,9 +35,25 @@ def run(ctx):
     cases = c04.make_cases(ctx, 120 if quick else 3000)
     exprs, keep = [], []
     for c in cases:
+        appended = len(c["records"]) >= 2 and (len(repr(c["raw"])) + len(c["records"])) % 4 == 1 and not c.get("piecewise")
+        if appended:
+            # the file is produced in TWO sessions: the second one appends (stream left at its end) and is given another codec,
+            # marker and interval -- the appended blocks must follow the header the file already has
+            full = c["records"]
+            c = dict(c, records=full[:len(full) // 2])
         w = c04.impl_write_file(c)
         if w[0] != "ok":
             continue
+        if appended:
+            fo = w[1]
+            try:
+                fastavro.writer(fo, c["raw"] if c["use_raw"] else c["parsed"], full[len(full) // 2:], codec=rng.choice(K.CODECS),
+                                sync_marker=bytes(rng.randrange(256) for _ in range(16)), sync_interval=rng.choice([1, 16000]))
+            except Exception as e:
+                ctx.violation("corr:independent-parse", c04.case_json(c), impl="append raised " + type(e).__name__ + ": " + str(e)[:200], model="appends",
+                              signature="C05:writer:append-raises", found_input=True)
+                continue
+            c = dict(c, records=full, appended=True)
         c["data"] = w[1].getvalue()
         try:
             c["null"] = K.to_null(c["data"], c["codec"])
